@@ -51,6 +51,9 @@ type FakeProxy struct {
 	batches chan []string
 	listN   int // list replies so far (their framing rotates)
 	failN   int // failed list calls so far (their kind rotates)
+	// FailKinds: the ways a list call fails, in rotation (default 503 / close / 500-body).  net/http re-sends a GET
+	// whose kept-alive connection was closed under it, so "close" is not always a failure the agent gets to see
+	FailKinds []string
 	// OnListArrive is called when a list call reaches the proxy (before it is answered)
 	OnListArrive func()
 	// OnListFail is called when a list call is about to fail (batch "!fail" pushed by the driver)
@@ -113,7 +116,11 @@ func (p *FakeProxy) serve(w http.ResponseWriter, r *http.Request) {
 				// a list call that fails: 503, or the connection closed without an answer
 				p.mu.Lock()
 				p.failN++
-				kind := []string{"503", "close", "500-body"}[p.failN%3]
+				kinds := p.FailKinds
+				if len(kinds) == 0 {
+					kinds = []string{"503", "close", "500-body"}
+				}
+				kind := kinds[p.failN%len(kinds)]
 				p.mu.Unlock()
 				if p.OnListFail != nil {
 					p.OnListFail(kind)
